@@ -4,7 +4,7 @@ from fcp.parser import get_fcp_from_string, get_fcp
 from fcp.error import Logger
 
 GOOD = ('version: "3"\n/* c */\nenum E { A = 0, B = 1, }\nstruct I { a @0: u3, e @1: E, }\n'
-        'struct S { x @0: u8 | unit("m") range(0, 1), i @1: I, arr @2: [I, 2], d @3: [u5], o @4: Optional[str], }\n'
+        'struct S { x @0: u8 | unit("m") range(0.0, 1.0), i @1: I, arr @2: [I, 2], d @3: [u5], o @4: Optional[str], }\n'
         'impl can for S as SS { id: 10, signal x { endianess: "big", }, }\nservice Svc @0 { method m(S) @0 returns I, }\n'
         'device dev { services: [Svc], }\n')
 BAD = ['', 'version', 'version: "2"\n', 'version: "3"\nstruct A { x @0: Unknown, }\n', 'version: "3"\nstruct A { x @1.5: u8, }\n',
